@@ -447,7 +447,7 @@ func (g *G) LetStmt() *Let {
 	if g.chance("freshlet", 2) {
 		name = g.Fresh("L")
 	}
-	l := &Let{Name: Ident{Name: name}, X: g.Expr(g.n("letdepth", 3), ECtx{Let: true})}
+	l := &Let{Name: Ident{Name: name, Quoted: g.chance("quotedletname", 6)}, X: g.Expr(g.n("letdepth", 3), ECtx{Let: true})}
 	g.scope = append(g.scope, name)
 	return l
 }
@@ -478,7 +478,7 @@ func (g *G) Program() *Program {
 
 // ---- layouts ----
 
-var sepPool = []string{" ", " ", " ", " ", "", "", "\t", "\n", "  \n\t", "// c\n", " //;'`\"\n", "\r\n", "\u00a0", " // é ü\n", "\r", " \r ", "\v", "\f", "\u2028", "\u0085"}
+var sepPool = []string{" ", " ", " ", " ", "", "", "\t", "\n", "  \n\t", "// c\n", " //;'`\"\n", "\r\n", "\u00a0", " // é ü\n", "\r", " \r ", "\v", "\f", "\u2028", "\u0085", " // a\u2028| take 1\n", "// b\u0085| where false\n", "// \u2029 second\n"}
 
 // Seps draws separators for n tokens (n+1 entries).
 func (g *G) Seps(n int) []string {
